@@ -51,7 +51,12 @@ func checkFilterSubscriptionTable(c *Ctx) {
 		c.undecided(rule, "filterSubscription.run/shape", pos, "no actor loop with a blocking select found")
 		return
 	}
-	w := &Walker{P: c.P, Inline: autoInline(c.P, fn, 16)}
+	roles := phiRoles(loop.Header, map[string]func(*ssa.Phi) bool{
+		"preadych": phiTypeIs("<-chan struct{}"),
+		"ready":    func(p *ssa.Phi) bool { return typeStr(p.Type()) == "bool" && setTrueAfterClose(p, "readych") },
+		"pending":  func(p *ssa.Phi) bool { return typeStr(p.Type()) == "bool" && !setTrueAfterClose(p, "readych") },
+	})
+	w := &Walker{P: c.P, Inline: autoInline(c.P, fn, 16), PhiNames: roles}
 	paths := w.IterRegion(fn, loop)
 	if w.Truncated {
 		c.undecided(rule, "filterSubscription.run/too-many-paths", pos, "path limit exceeded")
@@ -350,7 +355,7 @@ func checkFilterSubscriptionTable(c *Ctx) {
 	c.notes = append(c.notes, fmt.Sprintf("filterSubscription.run: %d iteration paths, %d abstract rows", len(paths), rows))
 
 	// prelude: preadych := s.parent.Ready(); pending, ready := false, false
-	pre := (&Walker{P: c.P}).PreludeRegion(fn, loop)
+	pre := (&Walker{P: c.P, PhiNames: roles}).PreludeRegion(fn, loop)
 	c.paths += len(pre)
 	okk := len(pre) == 1
 	detail := ""
@@ -501,28 +506,54 @@ func checkRangeSendAll(c *Ctx, rule string, fn *ssa.Function, isDelivery func(e 
 	iter := 0
 	for _, pa := range paths {
 		var cont, known bool
+		var idx *Term
 		for _, lit := range pa.Lits {
 			t := lit.T
 			if t.K == "binop" && t.S == "<" && t.A[1].K == "len" && t.A[1].A[0].K == "param" && t.A[1].A[0].S == sliceP {
-				cont, known = lit.Val, true
-				// index is phi+1 (go/ssa range lowering) — forward by one
-				if !(t.A[0].K == "binop" && t.A[0].S == "+" && t.A[0].A[0].K == "phi" && t.A[0].A[1].Key() == "1") {
-					okk, detail = false, "loop index does not advance by one"
-				}
+				cont, known, idx = lit.Val, true, t.A[0]
 			}
 			// other conditions are fine as long as every path delivers once and continues
 		}
 		if !known {
-			okk, detail = false, "loop is not a range over the events parameter"
+			okk, detail = false, "loop is not guarded by `index < len(events)`"
 			continue
 		}
 		if !cont {
 			continue
 		}
+		// the index is an induction variable starting at the first element and advancing by one:
+		// either the range lowering (phi+1, phi from -1) or an explicit counter (phi from 0)
+		var phi *ssa.Phi
+		want := ""
+		switch {
+		case idx.K == "binop" && idx.S == "+" && idx.A[0].K == "phi" && idx.A[1].Key() == "1":
+			phi, _ = idx.A[0].V.(*ssa.Phi)
+			want = "-1"
+		case idx.K == "phi":
+			phi, _ = idx.V.(*ssa.Phi)
+			want = "0"
+		}
+		if phi == nil {
+			okk, detail = false, "loop index is not an induction variable"
+		} else {
+			for i, e := range phi.Edges {
+				if !l.Body[l.Header.Preds[i]] {
+					if cst, ok := e.(*ssa.Const); !ok || cst.Value == nil || cst.Value.String() != want {
+						okk, detail = false, "the loop does not start at the first element"
+					}
+				}
+			}
+			nx := pa.PhiNext[phi.Comment]
+			if pa.End.Kind == "stop" && pa.End.Block == l.Header {
+				if nx == nil || !(nx.K == "binop" && nx.S == "+" && nx.A[0].K == "phi" && nx.A[0].V == phi && nx.A[1].Key() == "1") {
+					okk, detail = false, "loop index does not advance by one"
+				}
+			}
+		}
 		if pa.End.Kind != "stop" || pa.End.Block != l.Header {
 			okk, detail = false, "early exit from the distribution loop"
 		}
-		elem := &Term{K: "index", A: []*Term{{K: "param", S: sliceP}, {K: "binop", S: "+", A: []*Term{{K: "phi", S: "rangeindex"}, {K: "const", S: "1"}}}}}
+		elem := &Term{K: "index", A: []*Term{{K: "param", S: sliceP}, idx}}
 		n := 0
 		for _, e := range pa.Effects {
 			if e.IsPure() || e.Kind == "rundefers" {
@@ -549,22 +580,6 @@ func checkRangeSendAll(c *Ctx, rule string, fn *ssa.Function, isDelivery func(e 
 	if iter == 0 {
 		okk, detail = false, "no loop iteration path found"
 	}
-	// the range starts at index 0: phi rangeindex initial edge is -1
-	for _, in := range l.Header.Instrs {
-		if phi, ok := in.(*ssa.Phi); ok && phi.Comment == "rangeindex" {
-			init := false
-			for i, e := range phi.Edges {
-				if !l.Body[l.Header.Preds[i]] {
-					if cst, ok := e.(*ssa.Const); ok && cst.Value != nil && cst.Value.String() == "-1" {
-						init = true
-					}
-				}
-			}
-			if !init {
-				okk, detail = false, "range does not start at the first element"
-			}
-		}
-	}
 	// no delivery outside the loop
 	for _, b := range fn.Blocks {
 		if l.Body[b] {
@@ -577,5 +592,114 @@ func checkRangeSendAll(c *Ctx, rule string, fn *ssa.Function, isDelivery func(e 
 			}
 		}
 	}
-	c.check(okk, rule, name+"/each-element-once-in-order", pos, "single forward range; one delivery per element", name+": "+detail)
+	c.check(okk, rule, name+"/each-element-once-in-order", pos, "single forward loop; one delivery per element", name+": "+detail)
+}
+
+// setTrueAfterClose: the boolean phi receives `true` along an edge whose
+// source block (or its straight-line predecessors) closes the field named f —
+// the "ready" flag, as opposed to the other boolean loop variable.
+func setTrueAfterClose(p *ssa.Phi, f string) bool {
+	for i, e := range p.Edges {
+		k, ok := e.(*ssa.Const)
+		if !ok || k.Value == nil || k.Value.String() != "true" {
+			continue
+		}
+		b := p.Block().Preds[i]
+		for depth := 0; b != nil && depth < 4; depth++ {
+			for _, in := range b.Instrs {
+				if call, ok := in.(*ssa.Call); ok {
+					if bi, ok := call.Call.Value.(*ssa.Builtin); ok && bi.Name() == "close" && strings.HasSuffix(valPath(call.Call.Args[0]), "."+f) {
+						return true
+					}
+				}
+			}
+			if len(b.Preds) != 1 {
+				break
+			}
+			b = b.Preds[0]
+		}
+	}
+	return false
+}
+
+// checkFilterPublisherFlows: CloneWithFilter/CloneForFilter = the
+// corresponding filtered subscription wrapped in a publisher fed by that very
+// subscription; filterController.Refilter reaches that same subscription;
+// SubscribeWithFilter/ForFilter build the filtered subscription over a fresh
+// subscription of this publisher.
+func checkFilterPublisherFlows(c *Ctx) {
+	rule := "T-FLOW(filter-publisher)"
+	for _, k := range [][2]string{{"publisher.CloneWithFilter", "SubscribeWithFilter"}, {"publisher.CloneForFilter", "SubscribeForFilter"}} {
+		fn := c.mustFunc("", k[0])
+		if fn == nil {
+			continue
+		}
+		ok := false
+		for _, pa := range pathsOf(c, fn) {
+			if pa.End.Kind != "return" || len(pa.End.Results) != 2 || !pa.End.Results[1].IsNil() {
+				continue
+			}
+			r := pa.End.Results[0]
+			a, isNFP := isCall(r, "newFilterPublisher")
+			if isNFP && len(a) == 2 && a[1].K == "extract" && a[1].S == "0" && a[1].A[0].K == "call" && a[1].A[0].S == "publisher."+k[1] && isParamT(a[1].A[0].A[0], fn.Params[0].Name()) {
+				ok = true
+			}
+		}
+		c.check(ok, rule, k[0]+"/="+k[1]+"+newFilterPublisher", c.P.fnPos(fn), "", k[0]+" is not newFilterPublisher over s."+k[1]+"(…): nested clones would not compose their filters")
+	}
+	if fn := c.mustFunc("", "newFilterPublisher"); fn != nil {
+		ok := false
+		for _, pa := range pathsOf(c, fn) {
+			var subF, parF *Term
+			for _, e := range pa.Effects {
+				if e.Kind == "store" && e.Addr.K == "faddr" {
+					switch e.Addr.S {
+					case "subscription":
+						subF = e.Val
+					case "parent":
+						parF = e.Val
+					}
+				}
+			}
+			if subF != nil && parF != nil && isParamT(subF, fn.Params[1].Name()) {
+				if a, isNP := isCall(parF, "newPublisher"); isNP && len(a) == 2 && isParamT(a[1], fn.Params[1].Name()) {
+					ok = true
+				}
+			}
+		}
+		c.check(ok, rule, "newFilterPublisher/publisher-fed-by-the-same-subscription", c.P.fnPos(fn), "", "newFilterPublisher does not build {subscription, newPublisher(log, that subscription)}")
+	}
+	if fn := c.mustFunc("", "filterController.Refilter"); fn != nil {
+		ps := pathsOf(c, fn)
+		ok := len(ps) == 1 && len(ps[0].End.Results) == 1
+		if ok {
+			r := ps[0].End.Results[0]
+			ok = r.K == "invoke" && r.S == "Refilter" && r.A[0].IsRecvField("subscription") && len(r.A) == 2 && r.A[1].K == "param"
+		}
+		c.check(ok, rule, "filterController.Refilter/forwards-to-own-subscription", c.P.fnPos(fn), "", "filterController.Refilter does not forward its filter to the controller's own filtered subscription")
+	}
+	for _, k := range [][2]string{{"publisher.SubscribeWithFilter", "immediate"}, {"publisher.SubscribeForFilter", "deferred"}, {"publisher.Clone", "clone"}} {
+		fn := c.mustFunc("", k[0])
+		if fn == nil {
+			continue
+		}
+		ok := false
+		for _, pa := range pathsOf(c, fn) {
+			if pa.End.Kind != "return" || len(pa.End.Results) != 2 || !pa.End.Results[1].IsNil() {
+				continue
+			}
+			r := pa.End.Results[0]
+			var a []*Term
+			var isCtor bool
+			if k[1] == "clone" {
+				a, isCtor = isCall(r, "newPublisher")
+			} else {
+				a, isCtor = isCall(r, "newFilterSubscription")
+			}
+			if isCtor && len(a) >= 2 && a[1].K == "extract" && a[1].S == "0" && a[1].A[0].K == "call" && a[1].A[0].S == "publisher.Subscribe" && isParamT(a[1].A[0].A[0], fn.Params[0].Name()) {
+				ok = true
+			}
+		}
+		c.check(ok, rule, k[0]+"/over-a-fresh-subscription-of-this-publisher", c.P.fnPos(fn), "", k[0]+" does not build its result over a fresh s.Subscribe()")
+	}
 }
